@@ -277,6 +277,12 @@ def calleeFreeLinks (ps : List String) : List (COp × PyExpr) → Bool
   | (_, e) :: rest => calleeFree ps e && calleeFreeLinks ps rest
 end
 
+/-- … in any statement of a function body -/
+def calleeFreeBody (ps : List String) (body : List PyStmt) : Bool :=
+  body.all fun
+    | .ret (some e) => calleeFree ps e
+    | _ => true
+
 theorem zipStrict_eq {ps as : List String} {σ : List (String × String)} (h : zipStrict ps as = .ok σ) :
     σ = ps.zip as := by
   induction ps generalizing as σ with
@@ -324,7 +330,7 @@ theorem rename_sound (I : Interp) (env : VEnv) (ps as : List String) :
     (motive_3 := fun rest => ∀ pv v, calleeFreeLinks ps rest = true →
       evalPyLinks I (bindArgs env ps as) pv rest = some v →
       evalPyLinks I env pv (renameLinks (ps.zip as) rest) = some v)
-    ?name ?const ?unary ?binop ?compare ?ifexp ?call ?attr ?attrDeep ?boolop ?other
+    ?name ?const ?unary ?binop ?compare ?ifexp ?call ?attr ?attrDeep ?boolop ?callKw ?other
     ?lnil ?lcons ?nil ?cons).1
   case name =>
     intro id v _ h
@@ -396,6 +402,7 @@ theorem rename_sound (I : Interp) (env : VEnv) (ps as : List String) :
     simp only [calleeFree] at hf
     simp only [evalPy] at h
     simpa [renameExpr, evalPy] using (ih hf).2 b v h
+  case callKw => intro v _ h; simpa [renameExpr, evalPy] using h
   case other => intro v _ h; simpa [renameExpr, evalPy] using h
   case lnil => intro pv v _ h; simpa [renameLinks, evalPyLinks] using h
   case lcons =>
@@ -624,102 +631,5 @@ theorem nameToPy_plain (s : String) (h : isRoundTripName s = true) : nameToPy s 
     simp only [hof, hk, Bool.false_eq_true, if_false]
     rw [dropSubstr_noDU (c :: cs) hd, flatMap_word (c :: cs) hw]
     simp [isAlpha_of_ascii c hp.1, hof]
-
-/-! ### a whole reaction -/
-
-theorem append_ref_inj {x y : String} (h : x ++ "ref" = y ++ "ref") : x = y := by
-  have h' := congrArg String.toList h
-  simp only [String.toList_append] at h'
-  exact String.ext (List.append_cancel_right h')
-
-/-- value the SBML reading must give the net coefficient of an entry of `rxn.stoichiometry` -/
-def coefVal (env : VEnv) : String × PyCoef → Option Rat
-  | (_, .num q) => some q
-  | (x, .computed _) => (env (x ++ "ref")).map Val.toNum
-
-def refsOf (r : SRxn) : List SRef := r.reactants ++ r.products
-
-theorem lookupLast_append_ne {β : Type} (l : List (String × β)) {k k' : String} (v : β) (h : k ≠ k') :
-    lookupLast (l ++ [(k', v)]) k = lookupLast l k := by
-  have : (k == k') = false := by simpa using h
-  simp [lookupLast, List.lookup, this]
-
-/-- what one entry does to the document and the reaction (plain names: ids are the names) -/
-theorem exportCoef_shape {d d1 : SDoc} {r r1 : SRxn} {x : String} {c : PyCoef} (hx : isPlainName x = true)
-    (h : exportCoef (d, r) (x, c) = .ok (d1, r1)) :
-    (∃ q, c = .num q ∧ d1 = d ∧
-        r1 = addRef (if q < 0 then Gen.negSide else Gen.nonnegSide) r ⟨x, some (absRat q), none⟩) ∨
-    (∃ f m, c = .computed f ∧ sbmlifyFn f = .ok m ∧ d1 = { d with rules := d.rules ++ [(x ++ "ref", m)] } ∧
-        r1 = addRef Gen.computedSide r ⟨x, none, some (x ++ "ref")⟩) := by
-  have hxr := isPlainName_append_ref hx
-  cases c with
-  | num q =>
-    left
-    simp only [exportCoef, escapeId_plain "CPD" hx, bind, Except.bind, pure, Except.pure, Except.ok.injEq,
-      Prod.mk.injEq] at h
-    exact ⟨q, rfl, h.1.symm, h.2.symm⟩
-  | computed f =>
-    right
-    simp only [exportCoef, exportRule, escapeId_plain "CPD" hx, escapeId_plain "AR" hxr,
-      escapeId_plain "CPD" hxr, bind, Except.bind, pure, Except.pure] at h
-    cases hm : sbmlifyFn f with
-    | error e => simp [hm] at h
-    | ok m =>
-      simp only [hm, Except.ok.injEq, Prod.mk.injEq] at h
-      exact ⟨f, m, rfl, hm, h.1.symm, h.2.symm⟩
-
-theorem refsOf_addRef (side : Gen.Side) (r : SRxn) (s : SRef) :
-    ∀ t, t ∈ refsOf (addRef side r s) ↔ t ∈ refsOf r ∨ t = s := by
-  intro t
-  cases side <;> simp only [refsOf, addRef, List.mem_append, List.mem_singleton] <;> grind
-
-theorem sideSum_congr (env : VEnv) (d d1 : SDoc) (z : String) (l : List SRef)
-    (h : ∀ s ∈ l, s.species = z → refCoef env d1 s = refCoef env d s) :
-    sideSum env d1 z l = sideSum env d z l := by
-  unfold sideSum
-  congr 1
-  apply List.map_congr_left
-  intro s hs
-  have hmem := (List.mem_filter.mp hs)
-  exact h s hmem.1 (by simpa using hmem.2)
-
-theorem sideSum_append_other (env : VEnv) (d : SDoc) (z : String) (l : List SRef) (s : SRef)
-    (hs : s.species ≠ z) : sideSum env d z (l ++ [s]) = sideSum env d z l := by
-  have : (s.species == z) = false := by simpa using hs
-  simp [sideSum, List.filter_append, List.filter, this]
-
-/-- adding an entry for another species leaves the net coefficient of `z` alone, provided no existing
-    reference of `z` carries the id of the new rule -/
-theorem netCoef_frame (env : VEnv) {d d1 : SDoc} {r r1 : SRxn} {x z : String} {c : PyCoef}
-    (hx : isPlainName x = true) (h : exportCoef (d, r) (x, c) = .ok (d1, r1)) (hz : x ≠ z)
-    (hid : ∀ s ∈ refsOf r, s.species = z → s.id ≠ some (x ++ "ref")) :
-    netCoef env d1 r1 z = netCoef env d r z := by
-  have hcoef : ∀ s ∈ refsOf r, s.species = z → refCoef env d1 s = refCoef env d s := by
-    intro s hs hsz
-    rcases exportCoef_shape hx h with ⟨q, _, hd, _⟩ | ⟨f, m, _, _, hd, _⟩
-    · rw [hd]
-    · rw [hd]
-      unfold refCoef
-      cases hi : s.id with
-      | none => rfl
-      | some i =>
-        have hne : i ≠ x ++ "ref" := fun e => hid s hs hsz (by rw [hi, e])
-        simp only [lookupLast_append_ne d.rules _ hne]
-  have hr : ∀ s ∈ r.reactants, s.species = z → refCoef env d1 s = refCoef env d s :=
-    fun s hs => hcoef s (List.mem_append_left _ hs)
-  have hp : ∀ s ∈ r.products, s.species = z → refCoef env d1 s = refCoef env d s :=
-    fun s hs => hcoef s (List.mem_append_right _ hs)
-  have key : ∀ (side : Gen.Side) (s : SRef), s.species = x →
-      netCoef env d1 (addRef side r s) z = netCoef env d r z := by
-    intro side s hsx
-    have hne : s.species ≠ z := by rw [hsx]; exact hz
-    cases side
-    · simp only [netCoef, addRef, sideSum_append_other env d1 z r.reactants s hne,
-        sideSum_congr env d d1 z r.reactants hr, sideSum_congr env d d1 z r.products hp]
-    · simp only [netCoef, addRef, sideSum_append_other env d1 z r.products s hne,
-        sideSum_congr env d d1 z r.reactants hr, sideSum_congr env d d1 z r.products hp]
-  rcases exportCoef_shape hx h with ⟨q, _, _, hr1⟩ | ⟨f, m, _, _, _, hr1⟩
-  · rw [hr1]; exact key _ _ rfl
-  · rw [hr1]; exact key _ _ rfl
 
 end Mxl.C08
